@@ -454,7 +454,9 @@ pub fn check(tier: &str) -> i32 {
     let mut n_perm = 0u64;
     let max_k_perm = if tier == "quick" { 5 } else { 8 };
     {
-        let pools: [[&str; 8]; 2] = [
+        let pools: [[&str; 8]; 4] = [
+            ["FOR c0", "SINCE \"2025-01-01T00:00:00Z\"", "USING d", "WHERE k = 1", "COUNT", "ORDER BY count DESC", "LIMIT 5", "OFFSET 2"],
+            ["FOR c0", "WHERE k = 1", "TOTAL k, COUNT", "BY s", "ORDER BY s", "LIMIT 5", "PER DAY", "USING d"],
             ["FOR c0", "SINCE \"2025-01-01T00:00:00Z\"", "USING d", "RETURN [k, s]", "WHERE k = 1", "ORDER BY k DESC", "LIMIT 5", "OFFSET 2"],
             ["FOR c0", "SINCE \"2025-01-01T00:00:00Z\"", "USING d", "WHERE k = 1", "COUNT, TOTAL k", "PER DAY", "BY s", "LIMIT 5"],
         ];
@@ -685,7 +687,7 @@ pub fn check(tier: &str) -> i32 {
         coverage: json!({
             "evaluations": evals,
             "distinct_nontrivial": parsed.len(),
-            "rule": format!("(a) every string of <= {maxlen} tokens from a {}-token alphabet after each of {} command prefixes; (b) every WHERE tree with <= {max_leaves} leaves (deterministically thinned above 2) printed with minimal parentheses in 3 keyword cases and parsed back, all 256 clause subsets x 3 cases, every ordering of every clause subset of size 2..{max_k_perm} from two 8-clause pools (selection and aggregate clauses) against the documented order; (c) every single-token deletion, duplication and substitution of a {}-command corpus (tests/integration/scenarios.json + additions); (d) nesting depths {:?} of parentheses, NOT, unbalanced parentheses and JSON, one subprocess each with a 2 s budget; (e) every distinct parsed command (capped per command kind) dispatched against a live one-shard instance. distinct_nontrivial = distinct syntax trees the parser returned", TOKENS.len(), PREFIXES.len(), corp.len(), depths),
+            "rule": format!("(a) every string of <= {maxlen} tokens from a {}-token alphabet after each of {} command prefixes; (b) every WHERE tree with <= {max_leaves} leaves (deterministically thinned above 2) printed with minimal parentheses in 3 keyword cases and parsed back, all 256 clause subsets x 3 cases, every ordering of every clause subset of size 2..{max_k_perm} from four 8-clause pools (selection clauses, aggregate clauses, a bare COUNT next to ORDER BY / LIMIT / OFFSET, an aggregate list ending in COUNT next to BY / ORDER BY / PER) against the documented order; (c) every single-token deletion, duplication and substitution of a {}-command corpus (tests/integration/scenarios.json + additions); (d) nesting depths {:?} of parentheses, NOT, unbalanced parentheses and JSON, one subprocess each with a 2 s budget; (e) every distinct parsed command (capped per command kind) dispatched against a live one-shard instance. distinct_nontrivial = distinct syntax trees the parser returned", TOKENS.len(), PREFIXES.len(), corp.len(), depths),
             "samples": sample_json(&parsed.values().map(|x| x.0.clone()).collect::<Vec<_>>(), 8),
             "token_strings": inputs_a.len(),
             "parsed_from_token_strings": a_parsed,
